@@ -223,7 +223,9 @@ func family(n int) *core.Family {
 					if want && a != b {
 						nontriv = true
 					}
-					in := func() string { return fmt.Sprintf("store (n0..n3 = A::x, A::y, B::x, B::y): %s; n%d in %s", g, a, p.targets[b]) }
+					in := func() string {
+						return fmt.Sprintf("store (n0..n3 = A::x, A::y, B::x, B::y): %s; n%d in %s", g, a, p.targets[b])
+					}
 					guard("eval-in", in, func() {
 						v, err := eval.Eval(xast.Value(ua).In(xast.Value(p.targets[b])).AsIsNode(), env)
 						if err != nil || v != types.Boolean(want) {
@@ -536,9 +538,9 @@ func Check() *core.Check {
 			fams := []*core.Family{family(1), family(2), family(3)}
 			f4 := family(4)
 			if tier == "thorough" {
-				return append(fams, f4, shapeFamily(24, 40, 8))
+				return append(fams, f4, shapeFamily(24, 80, 8))
 			}
-			return append(fams, f4, shapeFamily(12, 20, 6))
+			return append(fams, f4, shapeFamily(12, 40, 6))
 		},
 	}
 }
